@@ -698,7 +698,12 @@ impl BytesMut {
 
                 // Compare the condition in the `kind == KIND_VEC` case above
                 // for more details.
-                if v_capacity >= new_cap + offset {
+                // `new_cap + offset` can overflow for requests close to
+                // `usize::MAX`; such a request never fits.
+                if new_cap
+                    .checked_add(offset)
+                    .map_or(false, |needed| v_capacity >= needed)
+                {
                     self.cap = new_cap;
                     // no copy is necessary
                 } else if v_capacity >= new_cap && offset >= len {
